@@ -409,8 +409,37 @@ fn gen_deep(rng: &mut Rng, depth: usize) -> OwnedValue {
     v
 }
 
+/// one very wide array or object: the element count needs 2 or 3 VInt bytes
+/// (an object writes twice its number of entries)
+fn gen_wide(rng: &mut Rng) -> OwnedValue {
+    let width = match rng.below(12) {
+        0 => 200,
+        1 => 255,
+        2 => 256,
+        3 => 257,
+        4 => 8191,
+        5 => 8192,
+        6 => 8193,
+        7 => 16384,
+        8 => 16383,
+        _ => 130 + rng.usize_below(400),
+    };
+    let leaf = |rng: &mut Rng, i: usize| match rng.below(4) {
+        0 => OwnedValue::Null,
+        1 => OwnedValue::Bool(i % 2 == 0),
+        2 => OwnedValue::U64(i as u64),
+        _ => OwnedValue::Str(format!("v{i}")),
+    };
+    if rng.chance(1, 2) {
+        OwnedValue::Array((0..width).map(|i| leaf(rng, i)).collect())
+    } else {
+        OwnedValue::Object((0..width).map(|i| (format!("k{i}"), leaf(rng, i))).collect())
+    }
+}
+
 fn gen_json_top(rng: &mut Rng, wild: bool, profile: u64) -> OwnedValue {
     let v = match profile {
+        1 => gen_wide(rng),
         0 => {
             let depth = 1 + rng.usize_below(60);
             gen_deep(rng, depth)
